@@ -11,8 +11,7 @@ CONSTANTS
   MaxDepth = {MaxDepth}
   Seed = "{Seed}"
   Profile = "{Profile}"
-VIEW View
-CONSTRAINT Bound
+VIEW ViewMC
 INVARIANT WhichRule
 PROPERTY FailureAtomic
 PROPERTY RemovalFrame
